@@ -15,10 +15,13 @@ import RichModel.Gen.TableBoxes
 First the arithmetic core ("ratio_distribute / ratio_reduce split integers so that the parts sum to the
 total", `_collapse_widths`), then the table itself (`Model/Table.lean`, cells as oracles — see
 `Model/TABLE_API.md`): rectangle, exact expansion, fitting the available width, row order, every cell inside
-its column's span.  `Flags.today` (the name dates from before the `fix:` commits) is rich 9.10.0 as found; the
-full-strength theorems are proved for the repaired variants and `old_…` witnesses show the as-found code violating
-them at a concrete table.  `Flags.repaired` repairs the first three defects (fixes dd342b5, c798468, b5d172f);
-`Flags.allRepaired` repairs all six (also 1d61bac, ab98098, f955c6c) and is what /repo contains now.
+its column's span; then the same sentence on rendered CHARACTERS (`cell_characters_in_column`, for text cells through
+C02's model of `Text.wrap`), the width bound for ARBITRARY columns (`width_bound_general`) and totality
+(`calc_widths_total`, what C14 needs).  `Flags.today` (the name dates from before the `fix:` commits) is rich 9.10.0 as
+found; the full-strength theorems are proved for the repaired variants and `old_…` witnesses show the as-found code
+violating them at a concrete table.  `Flags.repaired` repairs the first three defects (fixes dd342b5, c798468, b5d172f);
+`Flags.allRepaired` repairs all seven flags (also 1d61bac, ab98098, f955c6c, and 75c2776 = `flexClampZero`, the
+`max(0, width)` clamp that came in with ab98098 and is read only when `flexNegative = false`) and is what /repo contains now.
 -/
 namespace RichModel.C07
 open RichModel
@@ -684,9 +687,11 @@ theorem table_expand_exact_any_ratio (fl : Flags) (hst : fl.staleTableWidth = fa
     ∃ ws, t.calcWidths fl maxWidth = some ws ∧ ws.sum = maxWidth ∧ ws.length = t.columns.length :=
   table_expand_exact_core fl hst t maxWidth hexp hfl (first_widths_any_ratio fl h2 h3 t maxWidth hfree hpad hrat) hfree hne hnw hmw
 
-/-- Witness (found by the C01/C09 builder): with `max(0, width)` a zero-ratio column that finds no room is handed 0 cells
+/-- Witness (found by the C01/C09 builder; before fix 75c2776, `flexClampZero = true` with every other flag repaired): with
+`max(0, width)` a zero-ratio column that finds no room is handed 0 cells
 and gets one back from the `maximum or 1` re-measure after the collapse — the expanding table is ONE CELL TOO WIDE
-(7 for 6 here) at every width where the wide ordinary column wraps.  With `max(minimum, width)` it is exact. -/
+(7 for 6 here) at every width where the wide ordinary column wraps.  With `max(minimum, width)` (fix 75c2776,
+`Flags.allRepaired`) it is exact. -/
 def wTableRatioZero : Table :=
   { columns := [{ header := wCell [], footer := wCell [], cells := [], ratio := some 1 },
                 { header := wCell [], footer := wCell [], cells := [], ratio := some 0 },
